@@ -292,6 +292,21 @@ def let_tower(n, w):
     return e + f'v{n} == 0'
 for n, w in (((8, 2), (14, 2), (20, 2), (24, 2), (28, 2), (8, 8), (8, 24), (12, 16)) if thorough else ((14, 2), (26, 2), (8, 24))):
     HEAVY.append((f'let tower: {n} levels x {w} uses', let_tower(n, w)))
+# towers of lets whose bindings are operator chains: the tree is shallow (about K + N levels), evaluating the last name
+# walks through all K x N levels; and operator chains inside the aggregates (array, tuple, binding, template)
+def let_chain(k, n):
+    e = 'let x0 = 1 in '
+    for i in range(1, k + 1):
+        e += f'let x{i} = x{i-1}' + '+0' * n + ' in '
+    return e + f'x{k} == 1'
+for k, n in (((2, 60), (2, 88), (2, 92), (3, 58), (3, 61), (2, 100), (3, 80), (5, 100), (8, 100), (12, 100), (16, 100), (20, 100), (25, 100), (30, 120)) if thorough else ((2, 88), (3, 58), (2, 100), (5, 100), (12, 100), (30, 120))):
+    HEAVY.append((f'let chain: {k} bindings x {n} operators', let_chain(k, n)))
+for k, n in (((1, 120), (2, 60), (4, 250), (6, 250), (8, 250), (12, 250)) if thorough else ((1, 120), (4, 250), (8, 250))):
+    e = nest(k, n)
+    HEAVY += [(f'chains: {k} parentheses x {n} operators inside an array', f'[{e}][0] == 1'),
+              (f'chains: {k} parentheses x {n} operators inside a tuple', f'({e},).0 == 1'),
+              (f'chains: {k} parentheses x {n} operators inside a binding', f'let a = {e} in a == 1'),
+              (f'chains: {k} parentheses x {n} operators inside a template', '`${to_string(' + e + ')}` == "1"')]
 # words of the language in other letter cases (the grammar takes some of them whatever the case)
 for w in ('and', 'or', 'xor'):
     for sp in (w.upper(), w.capitalize(), w[0] + w[1:].upper()):
